@@ -2,6 +2,7 @@
 """Evaluate the rule catalogue of one property on a fact base; write evidence; print verdict lines.
 exit 0 = held on everything analysed (known findings are printed), 1 = new violation, 2 = checker broken."""
 import argparse
+import signal
 import json
 import os
 import sys
@@ -29,6 +30,17 @@ def main():
     t0 = time.time()
     seed = int(os.environ.get("VERIF_SEED", "0") or 0)
     pid = args.pid
+    # a rule that does not terminate is a broken check, not a silent one: fail closed after the budget (seconds)
+    budget = int(os.environ.get("VERIF_RULE_BUDGET", "900") or 900)
+    if hasattr(signal, "SIGALRM") and budget > 0:
+        def _too_long(signum, frame):
+            import traceback
+            where = "".join(traceback.format_stack(frame, limit=6))
+            print("ERROR check-broken: property=%s the rules did not finish within %d s\n%s" % (pid, budget, where))
+            sys.stdout.flush()
+            os._exit(2)
+        signal.signal(signal.SIGALRM, _too_long)
+        signal.alarm(budget)
     if pid not in engine.REGISTRY:
         print("ERROR check-broken: no rules registered for %s" % pid)
         return 2
